@@ -398,7 +398,7 @@ func reproduces[F algebra.PrimeFieldElement[F]](c fieldCtx[F], got []F, xs []*bi
 }
 
 func TestCheck(t *testing.T) {
-	engine.Rule("every matrix over the entry alphabet {0,1,q-1,2} of each listed shape x every right-hand side over the same alphabet (SolveRight/SolveLeft/Determinant/TryInv/Transpose/TryMul vs math/big Gaussian elimination); every node subset of size<=4 of {1,2,3,5,7,2^32+1,q-1} in ascending and descending order x every coefficient vector over {0,1,q-1} x 4 evaluation points (Lagrange, Vandermonde, in the exponent); every Birkhoff (x,j) pattern with n<=4 over x in {1,2,3,5}, j<n x every coefficient vector. A case is distinct by its (field, shape, matrix index) / (node set, coefficients) key; non-trivial = the library call was made and compared.")
+	engine.Rule("every matrix over the entry alphabet {0,1,q-1,2} of each listed shape x every right-hand side over the same alphabet (SolveRight/SolveLeft/Determinant/TryInv/Transpose/TryMul vs math/big Gaussian elimination); square products in every calling form (Mul, OtherOp, MulAssign, Square, SquareAssign, the receiver as its own operand directly and through a storage-sharing view): n=2 every ordered pair over the alphabet, n=3 every 0/1 matrix x 4 right operands, operands must stay unchanged; every node subset of size<=4 of {1,2,3,5,7,2^32+1,q-1} in ascending and descending order x every coefficient vector over {0,1,q-1} x 4 evaluation points (Lagrange, Vandermonde, in the exponent); every Birkhoff (x,j) pattern with n<=4 over x in {1,2,3,5}, j<n x every coefficient vector. A case is distinct by its (field, shape, matrix index) / (node set, coefficients) key; non-trivial = the library call was made and compared.")
 	engine.Assume("math/big and the reference Gaussian elimination in /verif/mc/ref/linalg are correct", "operands outside the alphabets are not explored", "purego build of the library")
 	kc := fieldCtx[*k256.Scalar]{"k256", k256.NewScalarField(), conv.K256N}
 	bc := fieldCtx[*bls12381.Scalar]{"bls12381", bls12381.NewScalarField(), conv.BLS12381R}
@@ -412,6 +412,7 @@ func TestCheck(t *testing.T) {
 	engine.Explore(solveBody(kc, shapes), engine.Opts{Name: "matrix/k256", Budget: engine.Budget(4*time.Minute, 40*time.Minute)})
 	engine.Explore(solveBody(bc, quickShapes[:7]), engine.Opts{Name: "matrix/bls12381", Budget: engine.Budget(3*time.Minute, 20*time.Minute)})
 	engine.Explore(mulBody(kc), engine.Opts{Name: "mul/k256", Budget: engine.Budget(2*time.Minute, 10*time.Minute)})
+	engine.Explore(squareBody(kc), engine.Opts{Name: "square-products/k256", Budget: engine.Budget(2*time.Minute, 10*time.Minute)})
 
 	engine.Explore(interpBody(kc), engine.Opts{Name: "interp/k256", Budget: engine.Budget(3*time.Minute, 20*time.Minute)})
 	engine.Explore(interpBody(bc), engine.Opts{Name: "interp/bls12381", Budget: engine.Budget(3*time.Minute, 20*time.Minute)})
@@ -539,5 +540,84 @@ func exponentBody() func(*engine.X) {
 				}
 			}
 		}
+	}
+}
+
+// squareBody: the square-matrix products in every calling form, operands aliased or not. n=2: every ordered pair over
+// the 4-letter alphabet; n=3: every matrix over {0,1} (2-letter alphabet) x 4 fixed right operands.
+func squareBody[F algebra.PrimeFieldElement[F]](c fieldCtx[F]) func(*engine.X) {
+	return func(x *engine.X) {
+		n := 2 + x.Choose("n-2", 2)
+		a := 4
+		if n == 3 {
+			a = 2
+		}
+		ai := x.Choose("A", ipow(a, n*n))
+		A := nthMat(c.q, n, n, a, ai)
+		sq := func(m *linalg.Mat) *mat.SquareMatrix[F] {
+			s, err := libMat(c, m).AsSquare()
+			if err != nil {
+				panic(engine.HarnessError{Msg: "AsSquare on a square matrix: " + err.Error()})
+			}
+			return s
+		}
+		ref := func(s *mat.SquareMatrix[F]) *linalg.Mat { return refMat(c, s.AsRectangular()) }
+		AA := A.Mul(A)
+		key := fmt.Sprintf("%s/square/n%d/%d", c.name, n, ai)
+		// squaring: every form, the receiver is its own operand
+		x.Case(key + "/square")
+		LA := sq(A)
+		if !ref(LA.Square()).Equal(AA) || !ref(LA).Equal(A) {
+			x.Failf("square/square", "%s: Square() wrong or receiver changed", key)
+		}
+		if s := sq(A); true {
+			s.SquareAssign()
+			if !ref(s).Equal(AA) {
+				x.Failf("square/square-assign", "%s: SquareAssign() != A*A", key)
+			}
+		}
+		if s := sq(A); true {
+			s.MulAssign(s)
+			if !ref(s).Equal(AA) {
+				x.Failf("square/mul-assign-self", "%s: m.MulAssign(m) != A*A", key)
+			}
+		}
+		if s := sq(A); true {
+			view, err := s.AsRectangular().AsSquare() // documented to share storage with s
+			if err != nil {
+				panic(engine.HarnessError{Msg: err.Error()})
+			}
+			s.MulAssign(view)
+			if !ref(s).Equal(AA) {
+				x.Failf("square/mul-assign-view", "%s: m.MulAssign(view of m) != A*A", key)
+			}
+		}
+		if !ref(sq(A).Mul(sq(A))).Equal(AA) || !ref(sq(A).OtherOp(sq(A))).Equal(AA) {
+			x.Failf("square/mul", "%s: Mul / OtherOp of two equal matrices != A*A", key)
+		}
+		// products with other operands
+		nb := ipow(a, n*n)
+		var bs []int
+		if n == 2 {
+			for bi := 0; bi < nb; bi++ {
+				bs = append(bs, bi)
+			}
+		} else {
+			bs = []int{0, 1, nb / 2, nb - 1}
+		}
+		for _, bi := range bs {
+			B := nthMat(c.q, n, n, a, bi)
+			AB := A.Mul(B)
+			x.Case(fmt.Sprintf("%s/%d", key, bi))
+			LA, LB := sq(A), sq(B)
+			if !ref(LA.Mul(LB)).Equal(AB) || !ref(LA).Equal(A) || !ref(LB).Equal(B) {
+				x.Failf("square/mul", "%s x %d: Mul wrong or an operand changed", key, bi)
+			}
+			LA.MulAssign(LB)
+			if !ref(LA).Equal(AB) || !ref(LB).Equal(B) {
+				x.Failf("square/mul-assign", "%s x %d: MulAssign wrong or the operand changed", key, bi)
+			}
+		}
+		x.Observe(n, ai, AA.Rank())
 	}
 }
